@@ -27,6 +27,7 @@ import (
 	"fmt"
 	"io"
 	"net"
+	"net/netip"
 	"os"
 	"runtime"
 	"sort"
@@ -1196,6 +1197,53 @@ func fdsDirect(seed uint64, tier string, args []string, w *bufio.Writer) {
 				p.Close()
 			}
 		})
+	}
+
+	// the same for multicast peers and packet connections, per direction (a deferred write only, a deferred read only, both)
+	for _, kind := range []string{"udppeer", "packet"} {
+		for _, variant := range []string{"write", "read", "both"} {
+			kind, variant := kind, variant
+			d.trial("close-after-io-close."+kind+"-"+variant, kind+".Close after IO.Close with a deferred "+variant, func() {
+				io2, err := sonic.NewIO()
+				if err != nil {
+					return
+				}
+				var closeIt func() error
+				io2.Dispatched = sonic.MaxCallbackDispatch
+				if kind == "udppeer" {
+					p, err := multicast.NewUDPPeer(io2, "udp", "127.0.0.1:0")
+					if err != nil {
+						io2.Close()
+						return
+					}
+					if variant != "read" {
+						p.AsyncWrite([]byte("x"), p.LocalAddr().AddrPort(), func(error, int) {})
+					}
+					if variant != "write" {
+						p.AsyncRead(make([]byte, 8), func(error, int, netip.AddrPort) {})
+					}
+					closeIt = p.Close
+				} else {
+					pc, err := sonic.NewPacketConn(io2, "udp", "127.0.0.1:0")
+					if err != nil {
+						io2.Close()
+						return
+					}
+					_ = syscall.SetNonblock(pc.RawFd(), true)
+					if variant != "read" {
+						pc.AsyncWriteTo([]byte("x"), &net.UDPAddr{IP: net.IPv4(127, 0, 0, 1), Port: 9}, func(error) {})
+					}
+					if variant != "write" {
+						pc.AsyncReadFrom(make([]byte, 8), func(error, int, net.Addr) {})
+					}
+					closeIt = pc.Close
+				}
+				io2.Dispatched = 0
+				io2.Close()
+				_ = closeIt()
+				_ = closeIt()
+			})
+		}
 	}
 
 	// ... and for the other kinds: IO.Close first, then Close, another object takes the number, Close again
